@@ -15,6 +15,9 @@ import (
 
 func init() {
 	register(&Property{ID: "C09", Run: runC09, Mutants: []Mutant{
+		{Name: "the Chinese universe exports i8 again", File: "internal/types/universe_wz.go", Old: "\t{Int32, IsInteger, token.K_普整型},", New: "\t{Int8, IsInteger, token.K_微整型},\n\t{Int32, IsInteger, token.K_普整型},", Expect: "universe-visibility-agrees :: Chinese name 微整型"},
+		{Name: "complex128 loses its Chinese name", File: "internal/types/universe_wz.go", Old: "\t{Complex128, IsComplex, token.K_双复},\n", New: "", Expect: "universe-visibility-agrees :: kind Complex128"},
+		{Name: "the Chinese universe predeclares a bare Pointer", File: "internal/types/universe_wz.go", Old: "\t\tif t.kind == UnsafePointer {\n\t\t\tcontinue // 只能通过 洪荒·指针 访问\n\t\t}\n", New: "", Expect: "universe-visibility-agrees :: bare Pointer"},
 		{Name: "Chinese initialisers all numbered from a counter that is never stored", File: "internal/ssa/create.go", Old: "\t\t\t\tpkg.ninit++\n\t\t\t\tname = fmt.Sprintf(token.K_准备+\"#%d\", pkg.ninit)", New: "\t\t\t\tname = fmt.Sprintf(token.K_准备+\"#%d\", pkg.ninit+1)", Expect: "init-name-counter"},
 		{Name: "English initialisers numbered before the counter advances (first two collide with the Chinese scheme off by one)", File: "internal/ssa/create.go", Old: "\t\t\t\tpkg.ninit++\n\t\t\t\tname = fmt.Sprintf(token.K_init+\"#%d\", pkg.ninit)", New: "\t\t\t\tname = fmt.Sprintf(token.K_init+\"#%d\", pkg.ninit)", Expect: "init-name-counter"},
 		{Name: "SSA builder forgets the Chinese break", File: "internal/ssa/builder.go", Old: "case token.BREAK, token.Zh_跳出:", New: "case token.BREAK:", Expect: "bilingual-case-completeness"},
